@@ -6,6 +6,7 @@ in-process driver); invalid UTF-8 -> 400; GET -> `svgbob_server <version>`; > 2 
 405; other path -> 404; malformed -> connection closed or a 4xx. After every burst a GET probe must be
 answered (bounded-progress form of "never stops answering"). Thorough: the same against a TSan build.
 """
+import fcntl
 import http.client
 import os
 import re
@@ -40,9 +41,14 @@ def free_port():
 
 
 class Server:
-    def __init__(self, binary, env=None):
+    def __init__(self, binary, env=None, stdout='file'):
         self.binary = binary
         self.env = env or {}
+        # where the server's standard output goes: 'file' (a log file), 'closed_pipe' (a pipe whose reader goes away
+        # once the server is up: `svgbob_server | head -1`, a log collector that died), 'undrained_pipe' (a 4 kB pipe
+        # nobody reads: whatever the server writes per request eventually blocks)
+        self.stdout = stdout
+        self.keep = None
         self.start()
 
     def start(self):
@@ -52,7 +58,18 @@ class Server:
             env['PORT'] = str(self.port)
             env.update(self.env)
             self.log = open(os.path.join(WORK, 'server-%d.log' % self.port), 'w')
-            self.p = subprocess.Popen([self.binary], env=env, stdout=self.log, stderr=subprocess.STDOUT)
+            rd = None
+            if self.stdout == 'file':
+                self.p = subprocess.Popen([self.binary], env=env, stdout=self.log, stderr=subprocess.STDOUT)
+            else:
+                rd, wr = os.pipe()
+                if self.stdout == 'undrained_pipe':
+                    try:
+                        fcntl.fcntl(wr, 1031, 4096)  # F_SETPIPE_SZ
+                    except OSError:
+                        pass
+                self.p = subprocess.Popen([self.binary], env=env, stdout=wr, stderr=self.log)
+                os.close(wr)
             t0 = time.time()
             while time.time() - t0 < 30:
                 if self.p.poll() is not None:
@@ -60,6 +77,10 @@ class Server:
                 try:
                     s = socket.create_connection(('127.0.0.1', self.port), timeout=1)
                     s.close()
+                    if rd is not None and self.stdout == 'closed_pipe':
+                        os.close(rd)     # the banner has been written (the server is listening); its reader goes away
+                    elif rd is not None:
+                        self.keep = rd   # open, never read
                     return
                 except OSError:
                     time.sleep(0.05)
@@ -75,6 +96,12 @@ class Server:
             self.p.wait()
         except Exception:
             pass
+        if self.keep is not None:
+            try:
+                os.close(self.keep)
+            except OSError:
+                pass
+            self.keep = None
         try:
             self.log.close()
             os.unlink(self.log.name)
@@ -413,7 +440,8 @@ def run_shard(ctx, shard):
     rng = rng_for(ctx.seed, ID, shard['name'])
     circles = ctx.extra['circles']
     version = ctx.extra['version']
-    srv = Server(shard.get('binary') or ctx.extra['server'], env=shard.get('env'))
+    srv = Server(shard.get('binary') or ctx.extra['server'], env=shard.get('env'), stdout=shard.get('stdout', 'file'))
+    ctx.tag('servers_with_stdout_' + shard.get('stdout', 'file'))
     aged = None
     rb = ctx.conv('+--+\n|  |\n+--+\n', entry=0)
     box = rb.out if rb.ok else None
@@ -450,7 +478,7 @@ def run_shard(ctx, shard):
                     ctx._violation({'request': small, 'concurrent_clients': nclients}, verdict + ' (with %d concurrent clients)' % nclients)
             if not srv.alive():
                 ctx._violation({'burst': burst, 'clients': nclients}, 'the server process died (status %s) during a burst of %d clients' % (srv.p.returncode, nclients))
-                srv = Server(shard.get('binary') or ctx.extra['server'], env=shard.get('env'))
+                srv = Server(shard.get('binary') or ctx.extra['server'], env=shard.get('env'), stdout=shard.get('stdout', 'file'))
             elif probe(srv.port, version, box):
                 ctx.tag('probes_answered')
             else:
@@ -492,6 +520,9 @@ def execute(run):
     shards.append({'name': 'sequential', 'bursts': 4 if quick else 20, 'clients': [1], 'per_client': 60})
     for i in range(7 if quick else 15):
         shards.append({'name': 'concurrent-%d' % i, 'bursts': 3 if quick else 12, 'clients': [2, 4, 8, 16, 16], 'per_client': 16 if quick else 25})
+    # the environment of a long-running server: its standard output may lose its reader or never be read
+    shards.append({'name': 'stdout-reader-gone', 'bursts': 2 if quick else 6, 'clients': [1, 4], 'per_client': 40, 'stdout': 'closed_pipe'})
+    shards.append({'name': 'stdout-never-read', 'bursts': 3 if quick else 8, 'clients': [4, 8], 'per_client': 60, 'stdout': 'undrained_pipe'})
     run.run_shards(binary, shards, extra=extra, workers=8)
     run.tags['max_overlapping_clients'] = int(run.maxima.get('overlapping_clients', 0))
     if not quick:
